@@ -4,6 +4,7 @@
 boundary windows around m*1024^k and up to 2^70, parsed back exactly.
 (2) scale-stats output vs. the files the real conversion commands wrote.
 """
+import json
 import os
 import re
 
@@ -27,7 +28,8 @@ RULE = ("(1) every integer in [0, 2^22) quick / [0, 2^26) thorough in blocks "
         "in-process and scale-stats stdout is compared with the chunk files "
         "/ shard index entries found on disk and with the decoded byte "
         "size; plus 3 datasets whose scale lists 2-3 chunk sizes, written by "
-        "convert-chunks (chunks of every listed size); non-trivial when "
+        "convert-chunks (chunks of every listed size), and 7 info-only datasets "
+        "of 10^6 .. 10^16 chunks compared with exact integer arithmetic; non-trivial when "
         "the dataset has >= 2 chunks.")
 ASSUMPTIONS = [
     "counts are integers (the documented parameter type)",
@@ -355,6 +357,85 @@ def _eval_stats_multi(col, case):
         sandbox.rm(d)
 
 
+INFO_ONLY = [
+    # (sizes per scale, chunk size, dtype, channels)
+    ([[6400, 6400, 6400], [3200, 3200, 3200]], 64, "uint8", 1),
+    ([[6572, 7404, 5711], [3286, 3702, 2856], [1643, 1851, 1428]], 64,
+     "uint8", 1),
+    ([[63999, 999, 1000]], 64, "uint16", 3),
+    ([[2 ** 53 + 1, 1, 1]], 1, "uint8", 1),
+    ([[64 * 2 ** 53 + 1, 1, 1], [32 * 2 ** 53 + 1, 1, 1]], 64, "uint8", 1),
+    ([[2 ** 31 + 1, 2, 1]], 2, "float32", 1),
+    ([[100000, 100000, 100]], 1, "uint8", 1),
+]
+
+
+def _eval_stats_info_only(col, case):
+    """scale-stats on an info that describes more chunks than could be
+    written here (10^6 .. 10^16): the reported counts must be the exact
+    ceil(size / chunk size) products - the numbers the conversion commands
+    write, as the small datasets establish - and the sizes the exact byte
+    counts"""
+    d = sandbox.fresh_dir("c20i")
+    try:
+        sizes, cs, dt, nch = (case["sizes"], case["chunk"], case["dtype"],
+                              case["channels"])
+        info = {"type": "image", "data_type": dt, "num_channels": nch,
+                "scales": [{"key": "s%d" % k, "size": sz,
+                            "chunk_sizes": [[cs, cs, cs]],
+                            "resolution": [2 ** k] * 3,
+                            "voxel_offset": [0, 0, 0], "encoding": "raw"}
+                           for k, sz in enumerate(sizes)]}
+        with open(os.path.join(d, "info"), "w") as f:
+            json.dump(info, f)
+        r = sandbox.run_cli("scale_stats", [d])
+        if not r.ok:
+            col.ev(1, 1, "stats-command-failed")
+            col.violation("C20/scale-stats/command-failed", case,
+                          "status 0", r.brief())
+            return
+        rep, total = {}, None
+        for ln in r.out.splitlines():
+            m = _LINE.match(ln)
+            if m:
+                rep[m.group(1)] = (int(m.group(4).replace(",", "")),
+                                   m.group(6))
+            m = _TOTAL.match(ln)
+            if m:
+                total = (int(m.group(1).replace(",", "")), m.group(3))
+        ok = True
+        tot_c = tot_b = 0
+        item = np.dtype(dt).itemsize
+        for k, sz in enumerate(sizes):
+            want_c = 1
+            for a in sz:
+                want_c *= -(-a // cs)
+            want_b = sz[0] * sz[1] * sz[2] * item * nch
+            tot_c += want_c
+            tot_b += want_b
+            got = rep.get("s%d" % k)
+            if got is None or got[0] != want_c:
+                ok = False
+                col.violation("C20/scale-stats/info-only/chunk-count", case,
+                              "%d chunks in scale s%d" % (want_c, k),
+                              got if got else r.out[-300:])
+            elif not _size_matches(got[1], want_b):
+                ok = False
+                col.violation("C20/scale-stats/info-only/size", case,
+                              "%d bytes" % want_b, got[1] + "B")
+        if total is None or total[0] != tot_c:
+            ok = False
+            col.violation("C20/scale-stats/info-only/total-chunk-count",
+                          case, tot_c, total if total else r.out[-300:])
+        elif not _size_matches(total[1], tot_b):
+            ok = False
+            col.violation("C20/scale-stats/info-only/total-size", case,
+                          tot_b, total[1] + "B")
+        col.ev(1, 1, "stats-ok/info-only" if ok else "stats-bad")
+    finally:
+        sandbox.rm(d)
+
+
 def units(tier):
     top = (1 << 22) if tier == "quick" else (1 << 26)
     step = BLOCK if tier == "quick" else BLOCK * 8
@@ -369,6 +450,9 @@ def units(tier):
     u.append({"kind": "statsbatch", "cases": [
         {"kind": "stats-multi", "size": list(sz), "chunk_sizes": css,
          "dtype": dt, "channels": nch} for sz, css, dt, nch in MULTI]})
+    u.append({"kind": "statsbatch", "cases": [
+        {"kind": "stats-info-only", "sizes": sizes, "chunk": cs,
+         "dtype": dt, "channels": nch} for sizes, cs, dt, nch in INFO_ONLY]})
     return u
 
 
@@ -391,6 +475,8 @@ def run_unit(u):
         for case in u["cases"]:
             if case["kind"] == "stats-multi":
                 _eval_stats_multi(col, case)
+            elif case["kind"] == "stats-info-only":
+                _eval_stats_info_only(col, case)
             else:
                 _eval_stats(col, case)
         col.sample(u["cases"][0])
@@ -403,6 +489,8 @@ def replay(case):
         _run_range(col, case["n"], case["n"] + 1)
     elif case["kind"] == "stats-multi":
         _eval_stats_multi(col, case)
+    elif case["kind"] == "stats-info-only":
+        _eval_stats_info_only(col, case)
     else:
         _eval_stats(col, case)
     return col.records()
